@@ -225,6 +225,84 @@ impl Read for ChunkReader<'_, '_> {
     }
 }
 
+/// a reader that delivers at most `size` bytes per call and answers every `intr`-th call with
+/// Interrupted (0 = never)
+struct FixedChunks<'a> {
+    data: &'a [u8],
+    pos: usize,
+    size: usize,
+    intr: usize,
+    calls: usize,
+}
+
+impl Read for FixedChunks<'_> {
+    fn read(&mut self, buf: &mut [u8]) -> std::io::Result<usize> {
+        self.calls += 1;
+        if self.intr > 0 && self.calls % self.intr == 0 {
+            return Err(std::io::Error::new(std::io::ErrorKind::Interrupted, "interrupted"));
+        }
+        let k = buf.len().min(self.size).min(self.data.len() - self.pos);
+        buf[..k].copy_from_slice(&self.data[self.pos..self.pos + k]);
+        self.pos += k;
+        Ok(k)
+    }
+}
+
+const CHUNK_SIZES: &[(usize, usize)] = &[(1, 0), (2, 0), (3, 0), (4, 0), (5, 0), (7, 0), (8, 0), (64, 0), (4096, 0), (8192, 0), (usize::MAX, 0), (1, 2), (3, 3), (usize::MAX, 7)];
+
+/// one size witness: stability in both formats, and the Zinc text through readers of fixed chunk sizes
+fn size_witness_case(i: usize, tier: Tier) -> Verdict {
+    let sw = u::size_witnesses_cached(tier);
+    let lv = crate::model::v::to_lib(&sw[i]);
+    let text = match guarded(|| to_zinc_string(&lv)) {
+        Ok(Ok(t)) => t,
+        Ok(Err(e)) => return Err(("size-witness-not-encodable".into(), e.to_string())),
+        Err(p) => return Err(("zinc-reencode-panic:size-witness".into(), p)),
+    };
+    zinc_stable(&text).map_err(|(s, d)| (s, d.chars().take(600).collect()))?;
+    if u::json_depth(&sw[i]) <= 127 {
+        if let Ok(Ok(j)) = guarded(|| serde_json::to_string(&lv)) {
+            hayson_stable(&j).map_err(|(s, d)| (s, d.chars().take(600).collect()))?;
+        }
+    }
+    let doc = text.as_bytes();
+    let want_value = value_key(&from_str(&text).map_err(|e| e.to_string()));
+    let want_rows: Result<Vec<String>, String> = {
+        let mut c = std::io::Cursor::new(doc);
+        Parser::make(&mut c).map_err(|e| e.to_string()).and_then(|mut p| parse_grid(&mut p).map_err(|e| e.to_string())).map(|g| g.rows.iter().map(|r| format!("{:?}", from_lib(&Value::Dict(r.clone())))).collect())
+    };
+    for &(size, intr) in CHUNK_SIZES {
+        let got = guarded(|| {
+            let mut r = FixedChunks { data: doc, pos: 0, size, intr, calls: 0 };
+            Parser::make(&mut r).map_err(|e| e.to_string()).and_then(|mut p| p.parse_value().map_err(|e| e.to_string()))
+        })
+        .map_err(|p| ("chunking-panic".to_string(), p))?;
+        if value_key(&got) != want_value {
+            return Err(("chunking-value-differs".into(), format!("size witness #{i} ({} bytes) through a reader delivering <= {size} bytes per call (Interrupted every {intr} calls) decodes differently from the buffer", doc.len())));
+        }
+        if want_rows.is_ok() {
+            let rows = guarded(|| {
+                let mut r = FixedChunks { data: doc, pos: 0, size, intr, calls: 0 };
+                let mut p = Parser::make(&mut r).map_err(|e| e.to_string())?;
+                let it = parse_grid_iterator(&mut p).map_err(|e| e.to_string())?;
+                let mut rows = vec![];
+                for row in it {
+                    rows.push(format!("{:?}", from_lib(&Value::Dict(row.map_err(|e| e.to_string())?))));
+                    if rows.len() > doc.len() + 2 {
+                        return Err("iterator does not terminate".to_string());
+                    }
+                }
+                Ok(rows)
+            })
+            .map_err(|p| ("chunking-panic".to_string(), p))?;
+            if rows != want_rows {
+                return Err(("chunking-rows-differ".into(), format!("size witness #{i}: lazy rows through a reader delivering <= {size} bytes per call differ from parse_grid")));
+            }
+        }
+    }
+    Ok(())
+}
+
 fn value_key(r: &Result<Value, String>) -> String {
     match r {
         Ok(v) => format!("{:?}", from_lib(v)),
@@ -444,7 +522,7 @@ fn mutant_texts(tier: Tier) -> Vec<String> {
 
 pub fn run(tier: Tier) -> i32 {
     let mut run = Run::new("C11", tier, "model_checking");
-    run.rule = "(a) stability: every spelling with <= 1 (thorough 2) deviations of the scalar alphabet and of a container sample (reference writer), the corpus files shipped with the repository, every accepted single-byte mutant of the small documents, for Zinc and Hayson: decode, re-encode, decode again (same value incl. grid ver), re-encode (identical text). (b) chunking (E2): every script of a reader that at each read() delivers all / one byte / half / Interrupted, with <= 2 deviations, for parse_value and for parse_grid_iterator vs parse_grid. (c) laziness: a counting reader under parse_grid_iterator for grids of 1-3 columns x 1-40 rows (LF and CRLF, nested grids, empty cells): bytes consumed when row i is yielded <= end of the first token after row i + 12. states = documents, transitions = reader scripts executed; non-trivial = distinct accepted text".into();
+    run.rule = "(a) stability: every spelling with <= 1 (thorough 2) deviations of the scalar alphabet and of a container sample (reference writer), the corpus files shipped with the repository, every accepted single-byte mutant of the small documents, for Zinc and Hayson: decode, re-encode, decode again (same value incl. grid ver), re-encode (identical text). (b) chunking (E2): every script of a reader that at each read() delivers all / one byte / half / Interrupted, with <= 2 deviations, for parse_value and for parse_grid_iterator vs parse_grid. (a'/b') every size witness (strings, widths, nesting at and around 2^6..2^16): stable in both formats, and its Zinc text through readers delivering at most 1,2,3,4,5,7,8,64,4096,8192 bytes per call or Interrupted every 2nd/3rd/7th call decodes (whole value and lazy rows) as from a buffer. (c) laziness: a counting reader under parse_grid_iterator for grids of 1-3 columns x 1-40 rows (LF and CRLF, nested grids, empty cells): bytes consumed when row i is yielded <= end of the first token after row i + 12. states = documents, transitions = reader scripts executed; non-trivial = distinct accepted text".into();
     run.assume("12 bytes = the lexer's maximal lookahead (1 scanner byte + up to 10 peeked bytes for number/date detection + CR LF)");
     run.assume("Interrupted reads are retried by the decoder (std::io::Read::read_exact semantics)");
     crate::engine::quiet_panics();
@@ -513,6 +591,19 @@ pub fn run(tier: Tier) -> i32 {
     });
     run.absorb(l);
 
+    // (a'/b') size witnesses: stability and fixed chunk sizes on large documents
+    let nsw = u::size_witnesses_cached(tier).len();
+    let l = crate::engine::par_for_stack(nsw, 64 << 20, |i, local| {
+        local.eval();
+        local.count("size-witnesses");
+        local.transitions += CHUNK_SIZES.len() as u64;
+        match size_witness_case(i, tier) {
+            Ok(()) => local.outcome("stable"),
+            Err((sig, d)) => local.fail(&sig, json!({"size_witness": i, "tier": tier.name()}), d),
+        }
+    });
+    run.absorb(l);
+
     // (b) chunking
     let docs: Vec<&Vec<u8>> = t.zdocs.iter().filter(|d| d.len() <= tier.pick(56, 80)).collect();
     run.note("chunking_documents", json!(docs.len()));
@@ -559,6 +650,10 @@ pub fn replay(case: &J) -> Verdict {
     if let Some(doc) = case["lazy_doc"].as_str() {
         let b: Vec<usize> = case["bounds"].as_array().unwrap().iter().map(|x| x.as_u64().unwrap() as usize).collect();
         return lazy_case(doc, &b);
+    }
+    if let Some(i) = case["size_witness"].as_u64() {
+        let tier = if case["tier"] == "thorough" { Tier::Thorough } else { Tier::Quick };
+        return size_witness_case(i as usize, tier);
     }
     let fmt = case["format"].as_str().unwrap_or("zinc");
     if let Some(script) = case.get("chunk_script").and_then(|s| s.as_array()) {
